@@ -11,20 +11,27 @@ VARIABLES l, ref, refAudio, scen, bad
 tvars == <<l, ref, refAudio, scen, bad>>
 TraceInit == l = 1 /\ ref = <<>> /\ refAudio = <<>> /\ scen = -1 /\ bad = 0
 
-AsFn(ds) == [i \in {ds[k][1] : k \in DOMAIN ds} |-> (CHOOSE k \in DOMAIN ds : ds[k][1] = i)]
+\* digests are <<frame number, digest>> pairs in increasing frame order; drivings that hand control back only every
+\* n frames report a subsequence of the reference's frames. (TLC re-evaluates LET definitions per use: values that are
+\* used inside a quantifier are bound with a singleton \E instead.)
 Step(e) ==
     IF e.scenario # scen
     THEN \* first driving of a scenario is the reference
          /\ scen' = e.scenario /\ ref' = e.digests /\ refAudio' = e.audio /\ bad' = bad
-    ELSE LET refIdx == AsFn(ref)
-             diff == {k \in DOMAIN e.digests :
-                        e.digests[k][1] \in DOMAIN refIdx /\ ref[refIdx[e.digests[k][1]]][2] # e.digests[k][2]}
+    ELSE \E refAt \in {[f \in {ref[k][1] : k \in DOMAIN ref} |-> 0] @@ [k \in {} |-> 0]} :
+         \E byFrame \in {[k \in DOMAIN ref |-> ref[k][1]]} :
+         \* frame f of the reference sits at index f whenever the reference reports every frame (it always does: "one")
+         \E dense \in {\A k \in DOMAIN ref : byFrame[k] = k} :
+         LET RefDigest(f) == IF dense THEN ref[f][2] ELSE ref[CHOOSE k \in DOMAIN ref : byFrame[k] = f][2]
+             known(f) == f \in DOMAIN refAt
+             diff == {k \in DOMAIN e.digests : known(e.digests[k][1]) /\ RefDigest(e.digests[k][1]) # e.digests[k][2]}
              audioBad == e.audio # <<>> /\ refAudio # <<>> /\ e.audio # refAudio
          IN /\ UNCHANGED <<scen, ref, refAudio>>
-            /\ IF diff = {} /\ ~audioBad /\ ~e.stuck /\ Len(e.digests) = Len(ref) - (Len(ref) - Len(e.digests)) THEN bad' = bad
+            /\ \E d \in {diff} :
+               IF d = {} /\ ~audioBad /\ ~e.stuck THEN bad' = bad
                ELSE /\ PrintT(<<"MISMATCH", l, e.driving,
-                               [scenario |-> e.scenario, stuck |-> e.stuck, frames |-> {e.digests[k][1] : k \in diff}, audio |-> audioBad,
-                                first |-> IF diff = {} THEN 0 ELSE e.digests[CHOOSE k \in diff : \A j \in diff : k <= j][1]]>>)
+                               [scenario |-> e.scenario, stuck |-> e.stuck, frames |-> {e.digests[k][1] : k \in d}, audio |-> audioBad,
+                                first |-> IF d = {} THEN 0 ELSE e.digests[CHOOSE k \in d : \A j \in d : k <= j][1]]>>)
                     /\ bad' = bad + 1
 
 TraceNext == l <= Len(Rec) /\ Step(Rec[l]) /\ l' = l + 1
